@@ -78,8 +78,12 @@ Qed.
 Lemma nodup_set t m e : NoDup (map fst t) -> NoDup (map fst (mt_set t m e)).
 Proof.
   intros H. rewrite keys_set. destruct (mt_has t m) eqn:E; [exact H|].
-  apply NoDup_app_snoc; [exact H|].
-  intros Hin. apply keys_in_iff in Hin. congruence.
+  assert (Hn : ~ In m (map fst t)) by (intros Hin; apply keys_in_iff in Hin; congruence).
+  clear E. induction (map fst t) as [|x l IH]; simpl.
+  - constructor; [intros [] | constructor].
+  - inversion H as [|? ? Hx Hd]; subst. constructor.
+    + rewrite in_app_iff. simpl. intros [Hi|[->|[]]]; [auto | apply Hn; now left].
+    + apply IH; [exact Hd | intros Hi; apply Hn; now right].
 Qed.
 
 Lemma nodup_set_all ms : forall t e, NoDup (map fst t) -> NoDup (map fst (mt_set_all t ms e)).
@@ -117,14 +121,14 @@ Proof.
     + split.
       * intros [= <- <-]. exists [], cs. simpl. repeat split; auto. intros ? [].
       * intros (pre & post & H & Hp & Hm). destruct pre as [|p pre]; simpl in H.
-        -- injection H as -> ->. congruence.
-        -- injection H as -> ->. specialize (Hp c (or_introl eq_refl)). congruence.
+        -- injection H as H1 H2. subst. congruence.
+        -- injection H as H1 H2. subst. specialize (Hp p (or_introl eq_refl)). congruence.
     + rewrite IH. split.
       * intros (pre & post & -> & Hp & Hm). exists (c :: pre), post. simpl. repeat split; auto.
         intros x [<-|Hx]; auto.
       * intros (pre & post & H & Hp & Hm). destruct pre as [|p pre]; simpl in H.
-        -- injection H as -> ->. congruence.
-        -- injection H as -> ->. exists pre, post. repeat split; auto. intros x Hx. apply Hp. now right.
+        -- injection H as H1 H2. subst. congruence.
+        -- injection H as H1 H2. subst. exists pre, post. repeat split; auto. intros x Hx. apply Hp. now right.
 Qed.
 
 Lemma first_cand_none t cs : first_cand t cs = None <-> forall c, In c cs -> mt_get t c = None.
@@ -266,8 +270,11 @@ Proof.
   - unfold mt_add, mt_registered, norm_methods.
     assert (E : existsb (fun m => mt_has t m) (map upper ms)
                 = existsb (fun m => match f m with Some _ => true | None => false end) (map upper ms)).
-    { apply existsb_ext_in. intros m _. unfold mt_has. now rewrite H. }
-    rewrite E. destruct (existsb _ (map upper ms)); [apply H|].
+    { induction (map upper ms) as [|m l IHl]; simpl; [reflexivity|].
+      rewrite IHl. unfold mt_has. now rewrite H. }
+    rewrite E. clear E.
+    destruct (existsb (fun m => match f m with Some _ => true | None => false end) (map upper ms));
+      [apply H|].
     rewrite mt_get_set_all. unfold in_strs. now rewrite H.
   - unfold norm_methods. rewrite mt_get_set_all. unfold in_strs. now rewrite H.
   - rewrite mt_get_remove, in_strs_sym. now rewrite H.
@@ -342,7 +349,7 @@ Lemma case_insensitive_lemma : forall t ms ms' e verb verb',
 Proof.
   intros t ms ms' e verb verb' Hm Hv. simpl. unfold norm_methods, dispatch_verb.
   rewrite Hm, Hv, upper_idem. repeat split.
-  rewrite map_map. erewrite map_ext; [reflexivity|]. intros a. apply upper_idem.
+  rewrite map_map. erewrite map_ext; [reflexivity|]. intros a. simpl. symmetry. apply upper_idem.
 Qed.
 
 (* ---------- 404 / 405 split (relative to the tree lookup) ---------- *)
